@@ -260,6 +260,11 @@ pub fn run(ctx: &mut Ctx, replay: Option<&str>) {
             let mut r = ctx.rng.fork(i as u64);
             cases.push(gen_issue(&mut r, ctx.tier));
         }
+        // names that look like syntax, registered claim names, a user-supplied cnf, deep chains
+        for f in special_flows(&mut ctx.rng.fork(9_999_991), ctx.tier) {
+            cases.push(f.issue);
+            ctx.count("stream.special_claim_set");
+        }
     }
     let mut reqs = vec![];
     let mut results = vec![];
@@ -276,6 +281,11 @@ pub fn run(ctx: &mut Ctx, replay: Option<&str>) {
     for (a, (r, i)) in cases.iter().zip(&results) {
         cmp_issue(ctx, a, r, &resp[*i], false);
         let spec = &resp[*i + 1];
+        if spec.get("hidden").is_none() || spec.get("strategy_ok").is_none() {
+            // the specification did not answer within its allowance (driver failure): nothing to judge against
+            ctx.skip_model("spec-answer-missing");
+            continue;
+        }
         ctx.oracle_checks += 1;
         let case = json!({"issue": a.json()});
         let strategy_ok = spec.get("strategy_ok").and_then(Value::as_bool).unwrap_or(true);
